@@ -11,7 +11,9 @@ for d in sorted(glob.glob(os.path.join(V, "seeded", "*"))):
     det = j.get("detected_by", {})
     note = (j.get("needs_to_manifest", "").strip().splitlines() or [""])
     first = next((l.strip("-* #") for l in note if len(l.strip()) > 20), "")[:150]
-    rows.append(("seeded/" + os.path.basename(d), j.get("breaks_property", "?"), det.get("result", j.get("checks_run", "")), det.get("first_signature", ""), first))
+    initial = j.get("checks_run", "")
+    missed_first = j.get("missed_when_first_run", False)
+    rows.append(("seeded/" + os.path.basename(d), j.get("breaks_property", "?"), det.get("result", initial) + ((" (MISSED when first run - " + j.get("strengthening", "") + "; check strengthened, see Amendments B)" if missed_first else "")), det.get("first_signature", ""), first))
 res = os.path.join(V, "selftest", "results.json")
 if os.path.exists(res):
     for k, v in sorted(json.load(open(res)).items()):
